@@ -98,6 +98,9 @@ struct Functor {
     Functor(const Functor &o) : magic(o.magic), calls(o.calls) { g_functorCopies++; }
     Functor &operator=(const Functor &) = delete;
     ~Functor() { magic = POISON; }
+    // a callable may be boolean-testable with a meaning of its own (a job whose `bool` says "result ready"): this one is "false"
+    // until it has run — the Thread has to invoke it regardless
+    explicit operator bool() const { return calls > 0; }
     template<class... A> void operator()(A &... xs) {
         if (magic != MAGIC) dead(magic == POISON ? "DEAD-CALLABLE functor: invoked after its destructor ran" : "DEAD-CALLABLE functor: storage overwritten");
         calls++;
